@@ -412,7 +412,25 @@ func TypedValueToYANGType(tv *sdcpb.TypedValue, schemaObject *sdcpb.SchemaElem) 
 	case *sdcpb.TypedValue_JsonVal:
 		return jsonValueToYANGType(tv.GetJsonVal(), tv, schemaObject)
 	case *sdcpb.TypedValue_LeaflistVal:
-		return tv, nil
+		// the elements take the type of the leaf-list, like the value of a leaf does (a NETCONF device
+		// reports every element as text, a gNMI device identities and union members as strings)
+		ll := schemaObject.GetLeaflist()
+		if ll == nil {
+			return tv, nil
+		}
+		elemSchema := &sdcpb.SchemaElem{Schema: &sdcpb.SchemaElem_Field{Field: &sdcpb.LeafSchema{Name: ll.GetName(), Type: ll.GetType()}}}
+		elems := make([]*sdcpb.TypedValue, 0, len(tv.GetLeaflistVal().GetElement()))
+		for _, e := range tv.GetLeaflistVal().GetElement() {
+			ce, err := TypedValueToYANGType(e, elemSchema)
+			if err != nil {
+				return nil, err
+			}
+			elems = append(elems, ce)
+		}
+		return &sdcpb.TypedValue{
+			Timestamp: tv.GetTimestamp(),
+			Value:     &sdcpb.TypedValue_LeaflistVal{LeaflistVal: &sdcpb.ScalarArray{Element: elems}},
+		}, nil
 	case *sdcpb.TypedValue_ProtoBytes:
 		return tv, nil
 	case *sdcpb.TypedValue_AnyVal:
